@@ -111,7 +111,11 @@ def h_descriptions(h):
                 if fixed:
                     params[fixed[0]] = _dep()
                 else:
-                    kw[f"f_{dep[0]}"] = h.real(f"d{i}_fixboth", 0.0, 2.0)
+                    # no fixed parameter in this template: fix one that also has a dependence function - a different
+                    # one than the 'neither' malformation removes (on the same parameter the two would cancel)
+                    if len(dep) < 2 and fl["neither"]:
+                        h.assume(False)
+                    kw[f"f_{dep[-1]}"] = h.real(f"d{i}_fixboth", 0.0, 2.0)
             if fl["neither"]:
                 del params[dep[0]]
             if fl["unknownparam"]:
